@@ -5,15 +5,15 @@
  "bound": "generated test modules through Example.run_inline: C01 value trees depth<=2 (quick)/3 (thorough), width<=3, 6 operations x 4 placements + multi-value snapshots, flags=create; C02 (odd old text, new value) pairs depth<=2/3 incl. two-snapshot bodies, flags=create,fix; oracle = rewritten module compiles and re-runs green with snapshot := identity",
  "input": {
   "prop": "C02",
-  "old": "[(str(\"it's\"), \"c\" \" d\", +3), b'x', (float('2.5'), \" \" \"pad \", \"c\" \" d\")]",
-  "new": "[b'x', (2.5, ' pad ', 'c d'), (\"it's\", 'c d', 3)]",
+  "old": "int(\"-5\")",
+  "new": "'ab'",
   "op": "eq",
   "shape": "create_then_fix",
   "placement": "assert",
-  "old2": "(\n        \"c d\",\n        \"c\" \" d\",  # c1\n        2.5,  # c2\n    )",
-  "new2": "('c d', 2.5)"
+  "old2": "NT(  a = 1 , b = None )",
+  "new2": "NT(a=(1, 1), b=None)"
  },
- "detail": "a test raised during the create,fix run: RuntimeError:\ngenerator raised StopIteration\nsource:\ndef test_a():\n    v1 = [b'x', (2.5, ' pad ', 'c d'), (\"it's\", 'c d', 3)]\n    v2 = ('c d', 2.5)\n    assert v1 == snapshot()\n    assert v2 == snapshot((\n        \"c d\",\n        \"c\" \" d\",  # c1\n        2.5,  # c2\n    ))\n\nrewritten:\ndef test_a():\n    v1 = [b'x', (2.5, ' pad ', 'c d'), (\"it's\", 'c d', 3)]\n    v2 = ('c d', 2.5)\n    assert v1 == snapshot([b\"x\", (2.5, \" pad \", \"c d\"), (\"it's\", \"c d\", 3)])\n    assert v2 == snapshot((\n        \"c d\",\n        \"c\" \" d\",  # c1\n        2.5,  # c2\n    ))\n"
+ "detail": "a test raised during the create,fix run: TypeError:\nNT.__new__() missing 1 required positional argument: 'b'\nsource:\ndef test_a():\n    v1 = 'ab'\n    v2 = NT(a=(1, 1), b=None)\n    assert v1 == snapshot()\n    assert v2 == snapshot(NT(  a = 1 , b = None ))\n\nrewritten:\ndef test_a():\n    v1 = 'ab'\n    v2 = NT(a=(1, 1), b=None)\n    assert v1 == snapshot(\"ab\")\n    assert v2 == snapshot(NT(  a = 1 , b = None ))\n"
 }
 """
 
@@ -65,7 +65,7 @@ def rerun_identity(src):
     finally:
         inline_snapshot.snapshot = real
 
-SRC = 'from inline_snapshot import snapshot\n\n\n# ---- case ----\ndef test_a():\n    v1 = [b\'x\', (2.5, \' pad \', \'c d\'), ("it\'s", \'c d\', 3)]\n    v2 = (\'c d\', 2.5)\n    assert v1 == snapshot()\n    assert v2 == snapshot((\n        "c d",\n        "c" " d",  # c1\n        2.5,  # c2\n    ))\n'
+SRC = 'from inline_snapshot import snapshot\nfrom collections import namedtuple\n\n\nNT = namedtuple("NT", "a b")\n\n\n# ---- case ----\ndef test_a():\n    v1 = \'ab\'\n    v2 = NT(a=(1, 1), b=None)\n    assert v1 == snapshot()\n    assert v2 == snapshot(NT(  a = 1 , b = None ))\n'
 FLAGS = 'create,fix'
 after, raised = run_inline({'test_something.py': SRC}, FLAGS, cwd_files={})
 new = after['test_something.py']
